@@ -169,6 +169,12 @@ class P(Prop):
                         f["mass"][t0] = Fraction(0)
                 out.append({"stream": "mix", "spec": spec, "series": series, "n": nst, "fuels": fuels,
                             "cls": rng.choice(CLASSES)})
+            elif rng.random() < 0.3:
+                # a plant's result charged to a fuel tank that may not cover it (feems.simulation_interface.EnergySource)
+                out.append({"stream": "tank", "spec": rng.choice(["IMO", "FUEL_EU_MARITIME"]), "fuel": rng.choice(["DIESEL", "NATURAL_GAS"]),
+                            "tank_share": rng.choice([Fraction(5), Fraction(1), Fraction(3, 5), Fraction(1, 4)]),
+                            "prev": rng.choice([Fraction(0), Fraction(0), Fraction(1, 2), Fraction(3, 5)]), "last": rng.random() < 0.3,
+                            "loads": [Fraction(rng.randint(1, 16), 16) * 1000 for _ in range(3)], "dt": [Fraction(rng.randint(1, 40) * 30) for _ in range(3)]})
             else:
                 out.append({"stream": "class", "type": rng.choice([0, 2, 2, 2, 8]), "cycle": rng.choice([0, 1, 2, 2, 3]),
                             "speed": rng.choice([80, 130, 199, 199.5, 200, 200.5, 514, 720, 1000, 1800]),
@@ -188,6 +194,8 @@ class P(Prop):
         from feems.fuel import (Fuel, FuelConsumerClassFuelEUMaritime as C, FuelConsumption, FuelOrigin, FuelSpecifiedBy,
                                 TypeFuel)
         st = case["stream"]
+        if st == "tank":
+            return self.run_tank(case)
         with np.errstate(all="ignore"):
             if st == "factors":
                 res = {}
@@ -252,8 +260,35 @@ class P(Prop):
             ents.append(f"({fid}, {core.coq_q(f['mass'][t])})")
         return core.coq_list(ents)
 
+    def run_tank(self, case):
+        import plantgen as pg
+        from feems.components_model.utility import IntegrationMethod
+        from feems.fuel import FuelSpecifiedBy
+        from feems.simulation_interface import EnergySource, EnergySourceType
+        plant = {"comps": [{"name": "gs", "cls": "genset", "swb": 1, "rated": Fraction(1000),
+                            "engine": {"fuel": case["fuel"], "cycle": "OTTO" if case["fuel"] == "NATURAL_GAS" else "DIESEL", "rated": Fraction(1100)}},
+                           {"name": "hotel", "cls": "load", "swb": 1, "rated": Fraction(1000), "eff": [1]}], "breakers": [], "swbs": [1]}
+        inp = {"n": 3, "sts": None, "dt": case["dt"],
+               "comps": [{"status": [True] * 3, "lsm": [Fraction(0)] * 3, "pin": [Fraction(0)] * 3}, {"pin": case["loads"], "set": "from_output"}]}
+        spec = FuelSpecifiedBy[case["spec"]]
+        comp = lambda g: [float(g.tank_to_wake_kg_or_gco2eq_per_gfuel), float(g.well_to_tank_kg_or_gco2eq_per_gfuel), float(g.well_to_wake_kg_or_gco2eq_per_gfuel)]
+        with np.errstate(all="ignore"):
+            sysm, objs = pg.build_electric_system(plant)
+            pg.apply_electric_inputs(sysm, objs, plant, inp)
+            sysm.do_power_balance_calculation()
+            res = sysm.get_fuel_energy_consumption_running_time(fuel_specified_by=spec)
+            burned = float(res.fuel_consumption_total_kg)
+            before = comp(res.co2_emission_total_kg)
+            tank = EnergySource(EnergySourceType.LNG_DIESEL, rated_capacity=10 * burned, unit="kg", remaining_capacity=float(case["tank_share"]) * burned)
+            _, res2 = tank.set_remaining_capacity_from_feems_result(res, ratio_energy_used_in_previous_source=float(case["prev"]),
+                                                                    is_last_energy_source=case["last"])
+            return {"burned": burned, "co2_before": before, "mass_after": float(res2.fuel_consumption_total_kg),
+                    "co2_after": comp(res2.co2_emission_total_kg)}
+
     def term(self, case, obs):
         st = case["stream"]
+        if st == "tank":
+            return "true"
         spec = "IMO" if case.get("spec") == "IMO" else "EU"
         if st == "factors":
             parts = []
@@ -300,6 +335,15 @@ class P(Prop):
         return ttw, num(rows[0]["CO2_WtT"]) * num(rows[0]["LCV"])
 
     def oracle(self, case, obs):
+        if case["stream"] == "tank":
+            if obs["burned"] <= 0:
+                return None
+            for name, a, b in zip(("tank-to-wake", "well-to-tank", "well-to-wake"), obs["co2_before"], obs["co2_after"]):
+                want = a / obs["burned"] * obs["mass_after"]        # the same pathway factor per kg of the same fuel
+                if abs(b - want) > 1e-9 * max(1.0, abs(want)):
+                    return (f"result charged to a tank: {obs['mass_after']} kg of fuel reported with {name} {b} kg, "
+                            f"mass x pathway factor = {want} kg")
+            return None
         if case["stream"] != "mix" or isinstance(obs["total"], str):
             return None
         if not obs["operands_unchanged"]:
